@@ -99,7 +99,8 @@ def extra_objects(spec, objs, cons, vol):
             cons += [o.place_at_center(vol)]
         elif e["kind"] == "realcoord":       # RealCoordinateConstraint is not accepted
             o = fdtdx.UniformMaterialObject(name=e["name"], partial_grid_shape=(2, 2, 2), material=mk_material(e))
-            cons += [o.set_real_coordinates(axes=(0, 1, 2), sides=("-", "-", "-"), coordinates=(1e-7, 1e-7, 1e-7))]
+            from fdtdx.objects.object import RealCoordinateConstraint
+            cons += [RealCoordinateConstraint(object=o.name, axes=(0, 1, 2), sides=("-", "-", "-"), coordinates=(1e-7, 1e-7, 1e-7))]
         else:
             raise ValueError(e["kind"])
         objs.append(o)
